@@ -566,9 +566,15 @@ class msp430_offs(imm_noarg, msp430_arg):
         if not isinstance(self.expr, ExprInt):
             return False
         v = int(self.expr)
-        if (1 << (self.l - 1)) & v:
+        # The displacement is a signed 16 bit value
+        if (1 << 15) & v:
             v = -((0xffff ^ v) + 1)
         v = self.encodeval(v)
+        if v is False:
+            return False
+        # Destination out of reach of the offset field
+        if not -(1 << (self.l - 1)) <= v < (1 << (self.l - 1)):
+            return False
         self.value = (v & 0xffff) & self.lmask
         return True
 
